@@ -402,6 +402,31 @@ def rsdp_checksum(F, inst, slen, v2, a):
             s_ok = under and sum_is_zero_over(v, lambda x: x == SEL.canon_place(CH.payload_of(G2, 1)))
         if f_ok and s_ok and len(ex) == (3 if need_g8 else 2):
             return True, "false when the RSDP part has fewer than `length` bytes; otherwise wrapping byte sum over exactly bytes[8..8+length] == 0 (%d exits)" % len(ex)
+    # the same decision written with explicit comparisons / pre-checked indexing: every exit that returns false has a path condition
+    # entailing 8 + length > 44, and the other exit returns (wrapping byte sum over bytes[8 .. 8 + length]) == 0 under 8 + length <= 44
+    from .. import slices as SL
+    total = slen + 8
+    want_src = ("sub", whole, ("c", 8), ("bin", "Add", ("c", 8), ln))
+    ok_all = bool(ex)
+    n_sum = 0
+    for e in ex:
+        pc = SL.norm_facts([N(f) for f in e.facts], A)
+        plain = [f for f in pc if f[0] == "cmp"]
+        nm = SL.Norm(plain, A)
+        v = N(e.val)
+        if v == ("c", 0):
+            ok_all = ok_all and G.entails(plain, ("cmp", "Gt", ("bin", "Add", ("c", 8), ln), ("c", total))) is not None
+        elif v[0] == "bin" and v[1] == "Eq" and v[3] == ("c", 0):
+            src_ = bytesum_source(F, A, G.strip(e.val)[2])
+            s_ = nm.unref(nm.norm(N(src_))) if src_ is not None else None
+            same = s_ is not None and s_[0] == "sub" and s_[1] == whole and SL.same(s_[2], want_src[2]) and SL.same(s_[3], want_src[3])
+            fits = G.entails(plain, ("cmp", "Le", ("bin", "Add", ("c", 8), ln), ("c", total))) is not None
+            ok_all = ok_all and same and fits
+            n_sum += 1
+        else:
+            ok_all = False
+    if ok_all and n_sum == 1:
+        return True, "decision list: false when 8 + length > %d; otherwise wrapping byte sum over exactly bytes[8..8+length] == 0 (%d exits)" % (total, len(ex))
     return False, "exits %s" % [(G.show(N(e.val))[:60], [G.show(N(f))[:80] for f in e.own]) for e in ex]
 
 
